@@ -10,7 +10,8 @@ checks, na = [], []
 for p in props:
     pid = p['id']
     path = os.path.join(HERE, 'pvmon', 'props', pid.lower() + '.py')
-    if not os.path.exists(path):
+    ready = set(open(os.path.join(HERE, 'tools', 'ready.txt')).read().split())
+    if not os.path.exists(path) or pid not in ready:
         na.append({'property_id': pid, 'reason': 'check not built yet in this round (design in DESIGN.md section 5 %s); runtime monitoring applies, nothing is claimed until the monitor exists' % pid})
         continue
     src = open(path).read()
